@@ -94,6 +94,7 @@ func checkC09(c *Ctx) {
 		r.Unres("R09a", "emitted server runtime", "", err.Error())
 		return
 	}
+	c09UTF8First(c, ep)
 	eff := NewEffects(ep)
 	fd, lit := middlewareLit(ep)
 	if lit == nil {
@@ -604,4 +605,36 @@ func c09HeaderScenarios(c *Ctx) {
 	} else {
 		r.Unres("R09h", "generateHeaderValidation", "", "not found")
 	}
+}
+
+// c09UTF8First: R09j — in the emitted validateStringHeader every path that can accept the value has tested
+// utf8.ValidString: the format validators (uuid, email, date-time …) look at shape only.
+func c09UTF8First(c *Ctx, ep *EmittedPkg) {
+	r := c.R
+	r.Rule("R09j", "string header values are tested for valid UTF-8 on every accepting path, whatever the declared format", 1)
+	fd := ep.Funcs["validateStringHeader"]
+	if fd == nil {
+		r.Unres("R09j", "validateStringHeader", "", "emitted function not found")
+		return
+	}
+	var sites []token.Pos
+	ast.Inspect(fd.Body, func(n ast.Node) bool {
+		if call, ok := n.(*ast.CallExpr); ok {
+			if cal := ep.CalleeOf(call); cal != nil && cal.Pkg() != nil && cal.Pkg().Path() == "unicode/utf8" && (cal.Name() == "ValidString" || cal.Name() == "Valid") {
+				sites = append(sites, call.Pos())
+			}
+		}
+		return true
+	})
+	if len(sites) == 0 {
+		r.Bad("R09j", "validateStringHeader tests utf8.ValidString", ep.GenPos(fd.Pos()), "the string header validator never tests the value for valid UTF-8", nil)
+		return
+	}
+	ok, esc := mustPass(ep.Info, fd.Body, sites)
+	pos := ep.GenPos(fd.Pos())
+	if !ok {
+		pos = ep.GenPos(esc)
+	}
+	r.Check(ok, "R09j", "validateStringHeader: utf8.ValidString precedes every accepting return", pos,
+		"validateStringHeader can accept a value (directly or through a format validator that only looks at the shape) without having tested it for valid UTF-8: a required header with a declared format and a non-UTF-8 value of the right shape is dispatched instead of being answered with 400")
 }
